@@ -132,6 +132,9 @@ def module_case(arg):
             if model.get("ok") == "1":
                 out["ok_structs"] += 1
             diffs = observe.compare(model, results[cid])
+            for key, bound, sz in observe.check_size_bounds(results[cid]):
+                out["size_bound_checks_failed"] = out.get("size_bound_checks_failed", 0) + 1
+                diffs.append((key, "a bound of the size", "%s but the size is %s" % (bound, sz)))
             if diffs:
                 diffs, exc = observe.reconcile(m, s.name, cppsuite.pdict(s, params), data, diffs,
                                                common.case_rng(arg["seed"], "c01-completion-" + cid, arg["idx"]))
